@@ -121,7 +121,8 @@ TraceRepop ==
     /\ Clause("C09", "repopulation_only_from_second_round", round > 0 /\ Ev.round = round)
     /\ Clause("C08", "before_is_current_labelling", Ev.before = labels)
     /\ IF RepopAllowed
-       THEN /\ Clause("C08", "repopulation_relation",
+       THEN /\ Clause("C20", "donor_shortage_must_raise_not_return", ~MustFail(Sizes(labels), cfg.K, cfg.m))
+            /\ Clause("C08", "repopulation_relation",
                       IF Ev.spread_ties THEN \E rk \in Perms(cfg.K) : RepopRelation(labels, Ev.out.labels, rk)
                       ELSE RepopRelation(labels, Ev.out.labels, Ev.rank))
             /\ IF Ev.spread_ties
